@@ -22,6 +22,15 @@ for f in glob.glob("/repo/rand_*/src/*.rs"):
     dst = os.path.join(P, os.path.relpath(f, "/repo"))
     os.makedirs(os.path.dirname(dst), exist_ok=True)
     shutil.copy(f, dst)
+# rand_core 0.9.5 as the registry holds it: the source the ExtTie.RandCore* theorems are about (copied for reference; the
+# translator always reads the registry copy and records its sha256)
+import rs2lean_rc
+rc_dir, rc_ver, rc_sha = rs2lean_rc.find_source()
+if rc_dir:
+    dst = os.path.join(P, "rand_core-0.9.5", "src")
+    os.makedirs(dst, exist_ok=True)
+    for f in rs2lean_rc.FILES:
+        shutil.copy(os.path.join(rc_dir, f), os.path.join(dst, f))
 # the bridge lemmas that restate the pinned translation of the block generators (rand_hc, rand_isaac) — regenerated from
 # exactly these sources and compiled by lake before the theorems are checked
 import subprocess
@@ -37,5 +46,6 @@ if bad:
     print("NOT PINNED: theorems fail on the pinned sources:", bad)
     sys.exit(1)
 exp = {k: dict(props=v["props"], fn=v["fn"], statement=v["statement"]) for k, v in r["theorems"].items()}
-json.dump(dict(theorems=exp, key=r["key"]), open(os.path.join(P, "EXPECTED.json"), "w"), indent=1, sort_keys=True)
+json.dump(dict(theorems=exp, key=r["key"], rand_core=dict(version=rc_ver, sha256=rc_sha)), open(os.path.join(P, "EXPECTED.json"), "w"),
+          indent=1, sort_keys=True)
 print(f"pinned {len(exp)} theorems, key {r['key']}")
